@@ -49,23 +49,23 @@ func ruleOPBIJ(c *Ctx, r *Report) {
 		key := "roundtrip|" + op
 		switch {
 		case !ok:
-			r.bad(rule, key, c.pos(ts.Global.Pos()), "toString has no name for "+op+": the operator member of the JSON encoding is empty and decoding yields an invalid expression")
+			r.bad(rule, key, ts.where(c), "toString has no name for "+op+": the operator member of the JSON encoding is empty and decoding yields an invalid expression")
 		case name == "":
-			r.bad(rule, key, c.pos(ts.Global.Pos()), "toString maps "+op+" to the empty string")
+			r.bad(rule, key, ts.where(c), "toString maps "+op+" to the empty string")
 		case from[name] != op:
-			r.bad(rule, key, c.pos(fs.Global.Pos()), fmt.Sprintf("toString maps %s to %q but fromString maps %q to %q: encoding then decoding changes the operator", op, name, name, from[name]))
+			r.bad(rule, key, fs.where(c), fmt.Sprintf("toString maps %s to %q but fromString maps %q to %q: encoding then decoding changes the operator", op, name, name, from[name]))
 		default:
 			if prev, dup := names[name]; dup {
-				r.bad(rule, key, c.pos(ts.Global.Pos()), fmt.Sprintf("toString gives %s and %s the same name %q", prev, op, name))
+				r.bad(rule, key, ts.where(c), fmt.Sprintf("toString gives %s and %s the same name %q", prev, op, name))
 			} else {
 				names[name] = op
-				r.ok(rule, key, c.pos(ts.Global.Pos()), name)
+				r.ok(rule, key, ts.where(c), name)
 			}
 		}
 	}
 	for name, op := range from {
 		if to[op] != name {
-			r.bad(rule, "fromString|extra|"+name, c.pos(fs.Global.Pos()), fmt.Sprintf("fromString accepts %q → %s but toString writes %s as %q: re-encoding does not reproduce the bytes", name, op, op, to[op]))
+			r.bad(rule, "fromString|extra|"+name, fs.where(c), fmt.Sprintf("fromString accepts %q → %s but toString writes %s as %q: re-encoding does not reproduce the bytes", name, op, op, to[op]))
 		}
 	}
 	r.floor(rule, "operators", len(ops), 19)
